@@ -73,15 +73,31 @@ def verify(sid):
 
 def run(sid, pid, tier="quick"):
     d = os.path.join(ROOT, "seeded", sid)
-    st = sh("git -C /repo status --porcelain --untracked-files=no").stdout.decode().strip()
-    assert not st, "repo not clean: " + st
-    a = sh("git -C /repo apply %s/patch.diff" % d)
-    assert a.returncode == 0, a.stdout
     t0 = time.time()
-    try:
-        r = sh("cd %s && ./check %s --tier %s" % (ROOT, pid, tier), env=dict(os.environ, VERIF_SEED=os.environ.get("VERIF_SEED", "0")))
-    finally:
-        sh("git -C /repo checkout -- .")
+    if os.environ.get("SEED_SCRATCH"):
+        # the change is applied to a scratch worktree of /repo's HEAD and the check pointed at it, so that
+        # /repo itself stays untouched (several seeded changes can then be tried while other work goes on)
+        wt = "/tmp/verif-seedrun-%s-%d" % (sid, os.getpid())
+        sh("git -C /repo worktree remove --force %s" % wt)
+        a = sh("git -C /repo worktree add -q --detach %s HEAD" % wt)
+        assert a.returncode == 0, a.stdout
+        try:
+            a = sh("git -C %s apply %s/patch.diff" % (wt, d))
+            assert a.returncode == 0, a.stdout
+            r = sh("cd %s && ./check %s --tier %s" % (ROOT, pid, tier),
+                   env=dict(os.environ, VERIF_SEED=os.environ.get("VERIF_SEED", "0"), VERIF_REPO=wt))
+        finally:
+            sh("git -C /repo worktree remove --force %s" % wt)
+            shutil.rmtree(wt, ignore_errors=True)
+    else:
+        st = sh("git -C /repo status --porcelain --untracked-files=no").stdout.decode().strip()
+        assert not st, "repo not clean: " + st
+        a = sh("git -C /repo apply %s/patch.diff" % d)
+        assert a.returncode == 0, a.stdout
+        try:
+            r = sh("cd %s && ./check %s --tier %s" % (ROOT, pid, tier), env=dict(os.environ, VERIF_SEED=os.environ.get("VERIF_SEED", "0")))
+        finally:
+            sh("git -C /repo checkout -- .")
     txt = r.stdout.decode()
     viol = [l for l in txt.splitlines() if l.startswith("VIOLATION")]
     res = {"exit": r.returncode, "violations": len(viol), "wall_s": round(time.time() - t0, 1), "tier": tier}
